@@ -824,7 +824,14 @@ def rule_bounded_repetition(ctx, rep, rid: str, only=None) -> None:
             n += 1
             v = script[0]
             key = f"{f.qual}:{short(m, 40)}"
-            ats = [(norm(a).replace(" ", ""), p) for t, pol in known_conditions(m, f.node) for a, p in atoms(t, pol)]
+            conds = []
+            for t, pol in known_conditions(m, f.node):
+                # `v is not None and (v < 0 or v > K)` known false: a v that is None is no number at all, so what is
+                # left of the conjunction is false for every NUMBER v
+                if not pol and isinstance(t, ast.BoolOp) and isinstance(t.op, ast.And) and len(t.values) == 2 and norm(t.values[0]) == f"{v} is not None":
+                    t = t.values[1]
+                conds.append((t, pol))
+            ats = [(norm(a).replace(" ", ""), p) for t, pol in conds for a, p in atoms(t, pol)]
             bounded = any(((a.startswith(f"{v}>") or a.startswith(f"{v}>=")) and not p) or ((a.startswith(f"{v}<") or a.startswith(f"{v}<=")) and p and not a.startswith(f"{v}<0") and not a.startswith(f"{v}<1")) or ((f"*{v}>" in a or f"{v}*" in a and ">" in a) and not p) for a, p in ats)
             if not bounded:
                 # an earlier `v = min(v, K)` or a clamp helper
